@@ -8,7 +8,7 @@ try:
     res = unit.build_unit(spec, out)
 except unit.Undecided as e:
     print("UNDECIDED", e); sys.exit(2)
-r = verus.run_verus(out, res['linemap'], res['info'])
+r = verus.run_verus(out, res['linemap'], res['info'], extra_args=spec.verus_args)
 print("verified", r.verified, "errors", r.errors, "wall %.1fs" % r.wall_s, "smt_ms", r.smt_ms)
 for c in r.compile_errors: print("COMPILE:", c)
 for c in r.undecided: print("UNDECIDED:", c)
